@@ -315,6 +315,19 @@ impl Universe {
         }
         v
     }
+    /// Longest key among the key sets generated with a long common prefix (deep trees).
+    pub fn deepest_common_prefix_key(&self) -> usize {
+        let mut m = 0;
+        if self.entity_style == "fixed_len_long_common_prefix" {
+            m = self.entities.iter().map(|k| k.len()).max().unwrap_or(0);
+        }
+        for (i, st) in self.sort_styles.iter().enumerate() {
+            if *st == "fixed_len_long_common_prefix" {
+                m = m.max(self.sort_keys[i].iter().map(|k| k.len()).max().unwrap_or(0));
+            }
+        }
+        m
+    }
     pub fn keys_of(&self, partition: u8) -> &[Vec<u8>] {
         let i = self.partitions.iter().position(|p| *p == partition).expect("partition of universe");
         &self.sort_keys[i]
